@@ -277,7 +277,7 @@ func extractWsTables(repo string) (string, error) {
 		return "", err
 	}
 	_ = fset
-	var sites, closes, sections []string
+	var sites, closes, sections, closeSecs []string
 	for _, d := range f.Decls {
 		fd, ok := d.(*ast.FuncDecl)
 		if !ok || fd.Body == nil {
@@ -292,6 +292,16 @@ func extractWsTables(repo string) (string, error) {
 				if c == "delete(c.active)" || c == "c.active[id]=" {
 					sections = append(sections, fmt.Sprintf("(%s, [%s])", strconv.Quote(fd.Name.Name), quoteAll(r)))
 					break
+				}
+			}
+		}
+		if fd.Name.Name == "close" {
+			for _, r := range w.regions {
+				closeSecs = append(closeSecs, "["+quoteAll(r)+"]")
+			}
+			for _, c := range w.free {
+				if strings.HasPrefix(c, "c.closed") || strings.HasPrefix(c, "if c.closed") || strings.HasPrefix(c, "range c.active") {
+					closeSecs = append(closeSecs, "["+quoteAll([]string{"UNLOCKED " + c})+"]")
 				}
 			}
 		}
@@ -314,6 +324,8 @@ func extractWsTables(repo string) (string, error) {
 	b.WriteString("def closeSites : List (String × Nat) := [\n  " + strings.Join(closes, ",\n  ") + "]\n\n")
 	b.WriteString("/-- websocket.go: every critical section that changes `c.active`, with the socket writes it contains, in order -/\n")
 	b.WriteString("def activeSections : List (String × List String) := [\n  " + strings.Join(sections, ",\n  ") + "]\n\n")
+	b.WriteString("/-- websocket.go: the critical sections of `close()`: what happens under the lock, in order -/\n")
+	b.WriteString("def closeSections : List (List String) := [" + strings.Join(closeSecs, ", ") + "]\n\n")
 	b.WriteString("/-- websocket.go: the statements of `case startMessageType:` in run() -/\n")
 	b.WriteString("def startArm : List String := [" + quoteAll(arm) + "]\n\n")
 	b.WriteString("end GqlgenVerif.Gen.WsTables\n")
@@ -458,8 +470,8 @@ func (w *lockWalker) exprs(n ast.Node, locked bool) {
 					w.notable("delete(c.active)", locked)
 				}
 			}
-			if name == "c.me.Send" {
-				w.notable("c.me.Send", locked)
+			if name == "c.me.Send" || name == "c.conn.WriteMessage" {
+				w.notable(name, locked)
 			}
 			switch {
 			case name == "c.me.Send", last == "WriteMessage", last == "WriteJSON", last == "WriteControl", last == "NextWriter", last == "WritePreparedMessage":
@@ -511,7 +523,17 @@ func (w *lockWalker) block(stmts []ast.Stmt, locked bool) bool {
 				w.exprs(x.Init, locked)
 			}
 			w.exprs(x.Cond, locked)
+			if sel, ok := x.Cond.(*ast.SelectorExpr); ok && identName(sel.X) == "c" && sel.Sel.Name == "closed" {
+				w.notable("if c.closed", locked)
+			}
+			saved := append([]string(nil), w.cur...)
+			nreg := len(w.regions)
 			l1 := w.block(x.Body.List, locked)
+			if endsInReturn(x.Body.List) {
+				// the early-exit branch (unlock; return) does not end the critical section of the fall-through path
+				w.cur = saved
+				w.regions = w.regions[:nreg]
+			}
 			l2 := locked
 			if x.Else != nil {
 				switch e := x.Else.(type) {
@@ -539,6 +561,17 @@ func (w *lockWalker) block(stmts []ast.Stmt, locked bool) bool {
 			w.block(x.Body.List, locked)
 		case *ast.RangeStmt:
 			w.exprs(x.X, locked)
+			if sel, ok := x.X.(*ast.SelectorExpr); ok && identName(sel.X) == "c" && sel.Sel.Name == "active" {
+				calls := ""
+				if len(x.Body.List) == 1 {
+					if es, ok := x.Body.List[0].(*ast.ExprStmt); ok {
+						if c, ok := es.X.(*ast.CallExpr); ok && len(c.Args) == 0 && x.Value != nil && identName(c.Fun) == identName(x.Value) {
+							calls = " call value"
+						}
+					}
+				}
+				w.notable("range c.active"+calls, locked)
+			}
 			w.block(x.Body.List, locked)
 		case *ast.SwitchStmt:
 			if x.Init != nil {
@@ -559,7 +592,10 @@ func (w *lockWalker) block(stmts []ast.Stmt, locked bool) bool {
 				w.block(cc.Body, locked)
 			}
 		case *ast.AssignStmt:
-			for _, l := range x.Lhs {
+			for i, l := range x.Lhs {
+				if sel, ok := l.(*ast.SelectorExpr); ok && identName(sel.X) == "c" && sel.Sel.Name == "closed" && i < len(x.Rhs) {
+					w.notable("c.closed="+identName(x.Rhs[i]), locked)
+				}
 				if ix, ok := l.(*ast.IndexExpr); ok {
 					if sel, ok := ix.X.(*ast.SelectorExpr); ok && identName(sel.X) == "c" && sel.Sel.Name == "active" {
 						w.notable("c.active[id]=", locked)
